@@ -155,7 +155,7 @@ func c04run(rep *lib.Report, c c04case) {
 	}
 	var src storage.Store = srcStore(files)
 	if c.LocalFS {
-		m := afero.NewMemMapFs()
+		m := newSafeMemMapFs()
 		_ = m.MkdirAll("/base", 0o755)
 		src = localfs.New(afero.NewBasePathFs(m, "/base"), localfs.WithRetry(false), localfs.WithLogger(nopLogger))
 		for p, d := range files {
@@ -217,7 +217,7 @@ func c04run(rep *lib.Report, c c04case) {
 		// full download
 		newDest := func() storage.Store {
 			if c.LocalFS {
-				m := afero.NewMemMapFs()
+				m := newSafeMemMapFs()
 				_ = m.MkdirAll("/base", 0o755)
 				return localfs.New(afero.NewBasePathFs(m, "/base"), localfs.WithRetry(false), localfs.WithLogger(nopLogger))
 			}
